@@ -42,3 +42,7 @@ Definition handle_http_request (rt : routes) (req : request) : option handler * 
   (who, apply_op (apply_op resp (SetServer (rt_server_id rt))) (SetContentType ApplicationJson)).
 
 End Router.
+
+Arguments rt_server_id {handler} _.
+Arguments rt_prefix {handler} _.
+Arguments rt_table {handler} _.
